@@ -21,9 +21,10 @@ func checkC03(w *World, r *Report) {
 	}
 	// an error that travels through a future is still the error its body raised, for every reader
 	r.include("C03.future-", "C10.", "an error raised in a future's body reaches every catch around a deref unchanged and as an error", checkC10, func(rule string) bool {
-		return rule == "C10.redeposit" || rule == "C10.single-outcome"
+		return rule == "C10.redeposit" || rule == "C10.single-outcome" || rule == "C10.outcome-own"
 	})
 	errorIsRule(w, r, "C03.is")
+	oneErrorTypeRule(w, r, "C03.one-error-type")
 	droppedErrorRule(w, r, "C03.checked-first")
 	handlerThrowLint(w, r, "C03.lisp-handlers")
 	loopErrorRule(w, r, "C03.loop-errors", func(fn *ssa.Function) bool { return runtimePkg(fnPkgPath(fn)) })
@@ -606,7 +607,9 @@ func rulePropagate(m *evalModel, r *Report) {
 					if pcs := m.producingCalls(arg, map[ssa.Value]bool{}); len(pcs) > 0 {
 						pc := pcs[0]
 						callee := pc.Call.StaticCallee()
-						if callee == m.EVAL || callee == m.evalAst || callee == m.doFn || callee == m.macroexpand || callee == m.apply {
+						// (the runner of the try body - a literal of EVAL or a function of the package that evaluates - is nested evaluation too)
+						nested := callee != nil && callee != m.EVAL && (callee.Parent() == m.EVAL || m.helperOf(callee) != nil) && m.evalRelevant(callee, map[*ssa.Function]bool{})
+						if callee == m.EVAL || callee == m.evalAst || callee == m.doFn || callee == m.macroexpand || callee == m.apply || nested {
 							n++
 							r.bad("C03.propagate", fn, "error of "+callee.Name()+" re-positioned", ret.Pos(), "an error coming back from nested evaluation is re-positioned on the way up: the innermost position is lost")
 						}
@@ -1193,6 +1196,23 @@ func checkC12(w *World, r *Report) {
 	// "defmacro binds a macro in the current scope": the scope rules of the evaluator (shared with C01.scope)
 	r.rule("C12.defining-scope", "defmacro (like def) writes its binding into the current scope, never into a scope found by looking the name up: a macro defined inside a function or let does not replace a binding of the same name further out (shared with C01.scope)")
 	ruleScope(m, r, "C12.defining-scope")
+	// "ordinary functions are unaffected": what def binds is the value its operand evaluated to, not an older
+	// value of that name patched up (which would keep the old value's macro flag)
+	r.rule("C12.def-verbatim", "def binds exactly the value it evaluated: a closure bound by def is the closure fn built (macro flag false), never a copy of what the name held before (shared with C01.def)")
+	{
+		before, beforeF := len(r.Obl), len(r.Floors)
+		ruleDef(m, r)
+		for i := before; i < len(r.Obl); i++ {
+			if r.Obl[i].Rule == "C01.def" {
+				r.Obl[i].Rule = "C12.def-verbatim"
+			}
+		}
+		for i := beforeF; i < len(r.Floors); i++ {
+			if r.Floors[i].Rule == "C01.def" {
+				r.Floors[i].Rule = "C12.def-verbatim"
+			}
+		}
+	}
 	r.rule("C12.macro-lookup-guard", "every access to a scope's table of bindings - the macro test's Find included - is made while the mutex of that very scope is held (or on a scope not yet shared): shared with C11.data")
 	guardRule(w, r, e, "C12.macro-lookup-guard", w.guardRows()[2])
 	r.rule("C12.copy", "a function value rebuilt field by field from an existing one (with-meta and the like) accounts for every field of MalFunc, so the macro flag, the scope builder and the evaluator travel with the copy")
@@ -3644,14 +3664,22 @@ func undoAlwaysRunsRule(w *World, r *Report, rule string) {
 				}
 				n++
 				runs := map[*ssa.BasicBlock]bool{}
-				deferred, sameBlock := false, false
+				deferred, sameBlock, handedOn := false, false, false
 				for _, ref := range *undo.Referrers() {
 					switch u := ref.(type) {
+					case *ssa.DebugRef:
+					case *ssa.Store, *ssa.Return, *ssa.MakeClosure, *ssa.Phi, *ssa.MakeInterface:
+						handedOn = true // kept for later or passed to someone else: not this function's to call
 					case *ssa.Defer:
 						if u.Call.Value == undo {
 							deferred = true
 						}
 					case *ssa.Call:
+						for _, a := range u.Call.Args {
+							if a == undo {
+								handedOn = true
+							}
+						}
 						if u.Call.Value == undo {
 							runs[u.Block()] = true
 							if u.Block() == b {
@@ -3666,6 +3694,10 @@ func undoAlwaysRunsRule(w *World, r *Report, rule string) {
 				}
 				if deferred || sameBlock {
 					r.ok(rule, fn, "undo function of "+c.Call.StaticCallee().Name(), c.Pos(), "deferred or called right away")
+					continue
+				}
+				if handedOn {
+					r.ok(rule, fn, "undo function of "+c.Call.StaticCallee().Name(), c.Pos(), "stored or handed on: called by its keeper")
 					continue
 				}
 				// a path from the call to a return, or round to the call again, that runs the undo nowhere
@@ -3763,4 +3795,45 @@ func frameBlindRule(m *evalModel, r *Report, rule string) {
 		}
 	}
 	r.add(rule, m.EVAL, "functions deferred by EVAL", token.NoPos, "ok", fmt.Sprintf("%d defers examined", n))
+}
+
+// oneErrorTypeRule: the evaluator, catch and the re-positioning constructor know a lisp error by its concrete
+// type. A second type that embeds or contains a LispError and is handed on as an error is, for all of them, a
+// foreign object: NewLispError wraps it whole, and catch binds the wrapper instead of the value the program threw.
+func oneErrorTypeRule(w *World, r *Report, rule string) {
+	r.rule(rule, "no named type of the runtime packages other than LispError itself has a field (embedded or not) of type LispError and is boxed into an error: the thrown object travels in one type, the one NewLispError, catch and LispError.Is recognise")
+	n := 0
+	for _, fn := range w.Funcs {
+		if isTestFunc(w, fn) || !inModule(fn) {
+			continue
+		}
+		for _, b := range fn.Blocks {
+			for _, in := range b.Instrs {
+				mi, ok := in.(*ssa.MakeInterface)
+				if !ok || !isErrorType(mi.Type()) {
+					continue
+				}
+				t := mi.X.Type()
+				if p, ok := t.Underlying().(*types.Pointer); ok {
+					t = p.Elem()
+				}
+				st, ok := t.Underlying().(*types.Struct)
+				if !ok {
+					continue
+				}
+				if _, name, isNamed := w.namedStruct(t); isNamed && name == "LispError" {
+					continue
+				}
+				n++
+				wraps := false
+				for i := 0; i < st.NumFields(); i++ {
+					if _, name, ok := w.namedStruct(st.Field(i).Type()); ok && name == "LispError" {
+						wraps = true
+					}
+				}
+				r.check(!wraps, rule, fn, "struct boxed into an error", mi.Pos(), "holds no LispError", "a value of type "+shortType(t)+", which carries a LispError inside, is handed on as an error: the re-positioning constructor and catch do not recognise it as a lisp error, so the handler is bound to the wrapper (or its text) instead of the thrown value")
+			}
+		}
+	}
+	r.add(rule, nil, "struct values boxed into errors in the module", token.NoPos, "ok", fmt.Sprintf("%d examined", n))
 }
